@@ -575,3 +575,5 @@ M('maxsize-cases-swapped', ['C17'], UT, "                if not hgt:\n          
 M('size-width-height-swapped', ['C17'], UT, "                        xform.width  = int(width)\n                        xform.height = int(height)", "                        xform.width  = int(height)\n                        xform.height = int(width)", ['C17.R6'])
 M('size-aspect-inverted', ['C17'], UT, "                        if aspect != 'x':\n                            xform.aspect = False", "                        if aspect == 'x':\n                            xform.aspect = False", ['C17.R6'])
 M('box-fields-shifted', ['C17'], UT, "                        xform.x      = float(x)\n                        xform.y      = float(y)", "                        xform.x      = float(y)\n                        xform.y      = float(x)", ['C17.R6'])
+M('hist-fix-branch-off-by-two', ['C16'], BR, "                                    if len(bucket_counts) > len(explicit_bounds) + 1:\n                                        bucket_counts = bucket_counts[:len(explicit_bounds) + 1]", "                                    if len(bucket_counts) > len(explicit_bounds) - 1:\n                                        bucket_counts = bucket_counts[:len(explicit_bounds) + 1]", ['C16.R4'])
+M('hist-fix-branches-swapped', ['C16'], BR, "                                    if len(bucket_counts) > len(explicit_bounds) + 1:\n                                        bucket_counts = bucket_counts[:len(explicit_bounds) + 1]", "                                    if len(bucket_counts) < len(explicit_bounds) + 1:\n                                        bucket_counts = bucket_counts[:len(explicit_bounds) + 1]", ['C16.R4'])
